@@ -21,7 +21,7 @@ import (
 //	SCHED_IN           schedules file (`lkdriver gen` output, or corpus schedules in the same format)
 //	SCHED_OUT          directory for observed.txt, progress.txt (S <sid> / D <sid> / H <info>), reached.json, stacks.txt
 //	SCHED_SKIP         number of schedules of SCHED_IN to skip (the parent restarts after a crashed / hung schedule)
-//	SCHED_WATCHDOG_MS  wall-clock budget of one synctest.Wait / one epilogue call (default 4000)
+//	SCHED_WATCHDOG_MS  wall-clock budget of one synctest.Wait / one epilogue call (default 2000)
 func TestSched(t *testing.T) {
 	slog.SetDefault(slog.New(slog.NewTextHandler(io.Discard, nil)))
 	out := os.Getenv("SCHED_OUT")
@@ -41,7 +41,7 @@ func TestSched(t *testing.T) {
 	skip, _ := strconv.Atoi(os.Getenv("SCHED_SKIP"))
 	wdms, _ := strconv.Atoi(os.Getenv("SCHED_WATCHDOG_MS"))
 	if wdms <= 0 {
-		wdms = 4000
+		wdms = 2000
 	}
 	of, _ := os.OpenFile(filepath.Join(out, "observed.txt"), os.O_CREATE|os.O_WRONLY|os.O_APPEND, 0o644)
 	pf, _ := os.OpenFile(filepath.Join(out, "progress.txt"), os.O_CREATE|os.O_WRONLY|os.O_APPEND, 0o644)
